@@ -203,6 +203,8 @@ def run():
         for e in bad:
             ck.reject("C20:panic-in-evaluation", e, {"n": ngor, "end": e})
         accepted, consumed, rows = validate(ck, f"n={ngor}", resp)
+        if len(rows) - 1 < 100 or not resp["extra"].get("startup"):
+            raise pvlib.Broken(f"the instrumented run recorded {len(rows) - 1} events ({len(resp['extra'].get('startup') or [])} at start-up): the hooks are not in the build that ran")
         total_events += len(rows) - 1
         writes = sum(1 for r in rows if r["ev"] == "AutoWrite")
         nontrivial += writes
